@@ -15,6 +15,8 @@ WORDS = ["a", "b", "c", "foo", "bar", "x1", "héllo", "\\AND", "ANDx", "and", "o
 PHRASES = ['"a b"', '""', '"a\\"b"', '"x:y"', '"AND"', '"a (b) [c]"', '"é ü"', '" lead"', '"t\\\\"',
            '"a\tb"', '"wild*"']
 PHRASES_NL = ['"a\nb"']
+PHRASES_CTRL = ['"a\x0bb"', '"x\u2028y"', '"a\rb"', '"p\x1cq"', '"m\x85n"', '"t\x0cu"']
+REGEXES_CTRL = ['/a\x0bb/', '/x\u2029y/']
 REGEXES = ["/a b/", "//", "/a\\/b/", "/[a-z]+/", "/x(y|z)/"]
 REGEXES_NL = ["/a\nb/"]
 NUMS = ["", "", "2", "2.0", ".5", "007", "1.", "10", "100", "0.50", "1.25", "0", "0.0", "3.14159",
@@ -44,10 +46,14 @@ class QueryGen:
 
     def phrase(self):
         pool = PHRASES + (PHRASES_NL if self.newline_lexemes else [])
+        if self.r.random() < 0.12:
+            pool = PHRASES_CTRL
         return self.r.choice(pool)
 
     def regex(self):
         pool = REGEXES + (REGEXES_NL if self.newline_lexemes else [])
+        if self.r.random() < 0.12:
+            pool = REGEXES_CTRL
         return self.r.choice(pool)
 
     def num(self):
